@@ -1,0 +1,242 @@
+//go:build verif
+
+// Contracts for govc (contract-based deductive verification); comments only.
+package cluster_info
+
+// ---- C10: queue graph -----------------------------------------------------------------------
+// What snapshotQueues hands over: every entry is a non-nil QueueInfo stored under its own UID
+// (so distinct keys hold distinct objects).
+//@ define nonNil(qs map[common_info.QueueID]*queue_info.QueueInfo) bool = forall k in qs :: qs[k] != nil
+//@ define keyed(qs map[common_info.QueueID]*queue_info.QueueInfo) bool = forall k in qs :: qs[k] != nil && qs[k].UID == k
+//@ define noChildren(qs map[common_info.QueueID]*queue_info.QueueInfo) bool = forall k in qs :: len(qs[k].ChildQueues) == 0
+// C10 "missing parents": every queue's parent is "" or a queue of the map (orphans pruned)
+//@ define wfParents(qs map[common_info.QueueID]*queue_info.QueueInfo) bool = forall k in qs :: qs[k].ParentQueue == "" || qs[k].ParentQueue in qs
+// every listed child id exists
+//@ define childrenExist(qs map[common_info.QueueID]*queue_info.QueueInfo) bool = forall k in qs :: forall i int :: 0 <= i && i < len(qs[k].ChildQueues) ==> qs[k].ChildQueues[i] in qs
+// a listed child that exists names the lister (whose id is not "") as its parent (preserved by deletions)
+//@ define childPar(qs map[common_info.QueueID]*queue_info.QueueInfo) bool = forall k in qs :: forall i int :: 0 <= i && i < len(qs[k].ChildQueues) && qs[k].ChildQueues[i] in qs ==> qs[qs[k].ChildQueues[i]].ParentQueue == k && k != ""
+// a queue whose (non-empty) parent exists is listed by that parent (preserved by deletions)
+//@ define childComplete(qs map[common_info.QueueID]*queue_info.QueueInfo) bool = forall c in qs :: qs[c].ParentQueue != "" && qs[c].ParentQueue in qs ==> queue_info.isChild(qs[qs[c].ParentQueue], c)
+
+// Deletes queueID and everything listed (transitively) under it; nothing else. A deleted queue other
+// than queueID had a parent that is deleted too; no surviving queue loses an existing parent.
+//@ func deleteQueueAndChildren
+//@   props C10
+//@   note recursion: the recursive call is checked against this contract (partial correctness). Termination of the recursion is NOT claimed: it needs a rank that decreases from a queue to its listed children, i.e. acyclicity of the child lists below queueID. At the only call site queueID is an orphan (its parent is absent), and since ParentQueue is single-valued the queues below an orphan form a tree.
+//@   requires nonNil(queues) && childPar(queues) && childComplete(queues)
+//@   modifies queues[*]
+//@   loop 1
+//@     invariant 0 - 1 <= rangeindex && rangeindex < len(queue.ChildQueues)
+//@     invariant forall k in queues :: old(k in queues) && queues[k] == old(queues[k])
+//@     invariant nonNil(queues) && childPar(queues) && childComplete(queues)
+//@     invariant forall m map[common_info.QueueID]*queue_info.QueueInfo :: m != queues && old(allocated(m)) ==> dom(m) == old(dom(m))
+//@     invariant forall m map[common_info.QueueID]*queue_info.QueueInfo, k common_info.QueueID :: m != queues && old(allocated(m)) && old(k in m) ==> m[k] == old(m[k])
+//@     invariant forall j int :: 0 <= j && j < len(queue.ChildQueues) && queue.ChildQueues[j] in queues ==> queues[queue.ChildQueues[j]].ParentQueue == queueID && queueID != ""
+//@     invariant forall j int :: 0 <= j && j <= rangeindex ==> !(queue.ChildQueues[j] in queues)
+//@     invariant forall k common_info.QueueID :: old(k in queues) && !(k in queues) ==> old(queues[k]).ParentQueue != "" && (old(queues[k]).ParentQueue == queueID || !(old(queues[k]).ParentQueue in queues))
+//@     invariant forall k in queues :: queues[k].ParentQueue != "" && old(queues[k].ParentQueue in queues) && queues[k].ParentQueue != queueID ==> queues[k].ParentQueue in queues
+//@     decreases len(queue.ChildQueues) - rangeindex
+//@   ensures [deleted] !(queueID in queues)
+//@   ensures [onlyDeletes] forall k in queues :: old(k in queues) && queues[k] == old(queues[k])
+//@   ensures [deletedHaveDeletedParent] forall k common_info.QueueID :: old(k in queues) && !(k in queues) ==> k == queueID || (old(queues[k]).ParentQueue != "" && !(old(queues[k]).ParentQueue in queues))
+//@   ensures [noNewOrphans] forall k in queues :: queues[k].ParentQueue != "" && old(queues[k].ParentQueue in queues) ==> queues[k].ParentQueue in queues
+//@   ensures [shape] nonNil(queues) && childPar(queues) && childComplete(queues)
+//@ end
+
+// C10: "missing parents or queues": after the pass every remaining queue has parent "" or a parent
+// that is still in the map, every listed child still exists, and ONLY orphans and their descendants
+// were removed (a removed queue's parent is absent afterwards: "workloads not touched by the
+// malformed objects are still scheduled").
+//@ func cleanQueueOrphans
+//@   props C10
+//@   requires nonNil(queues) && childPar(queues) && childComplete(queues) && childrenExist(queues)
+//@   modifies queues[*]
+//@   loop 1
+//@     invariant forall k in queues :: old(k in queues) && queues[k] == old(queues[k])
+//@     invariant nonNil(queues) && childPar(queues) && childComplete(queues)
+//@     invariant childrenExist(queues)
+//@     invariant forall m map[common_info.QueueID]*queue_info.QueueInfo :: m != queues && old(allocated(m)) ==> dom(m) == old(dom(m))
+//@     invariant forall m map[common_info.QueueID]*queue_info.QueueInfo, k common_info.QueueID :: m != queues && old(allocated(m)) && old(k in m) ==> m[k] == old(m[k])
+//@     invariant forall k in visited :: k in queues ==> queues[k].ParentQueue == "" || queues[k].ParentQueue in queues
+//@     invariant forall k common_info.QueueID :: old(k in queues) && !(k in queues) ==> old(queues[k]).ParentQueue != "" && !(old(queues[k]).ParentQueue in queues)
+//@   ensures [parentsPresent] wfParents(queues)
+//@   ensures [childrenPresent] childrenExist(queues)
+//@   ensures [onlyDeletes] forall k in queues :: old(k in queues) && queues[k] == old(queues[k])
+//@   ensures [onlyOrphansPruned] forall k common_info.QueueID :: old(k in queues) && !(k in queues) ==> old(queues[k]).ParentQueue != "" && !(old(queues[k]).ParentQueue in queues)
+//@   ensures [shape] nonNil(queues) && childPar(queues) && childComplete(queues)
+//@ end
+
+// Builds the child lists from the parent references: afterwards a queue is listed by q iff q is its
+// (non-empty, existing) parent. Only ChildQueues fields change; the map itself does not.
+//@ func updateQueueChildren
+//@   props C10
+//@   requires keyed(queues) && noChildren(queues)
+//@   modifies family(queues[""].ChildQueues)
+//@   loop 1
+//@     invariant keyed(queues)
+//@     invariant forall k in queues :: forall i int :: 0 <= i && i < len(queues[k].ChildQueues) ==> queues[k].ChildQueues[i] in queues && queues[queues[k].ChildQueues[i]].ParentQueue == k && k != ""
+//@     invariant forall c in visited :: queues[c].ParentQueue != "" && queues[c].ParentQueue in queues ==> queue_info.isChild(queues[queues[c].ParentQueue], c)
+//@   ensures [shape] keyed(queues) && childPar(queues) && childComplete(queues)
+//@   ensures [childrenPresent] childrenExist(queues)
+//@ end
+
+// C10 top-level for the queue graph: "For any content of the API objects the scheduler reads -
+// including ... queue parent cycles or self-parents, missing parents or queues ... - opening a session
+// and running all actions terminates without panicking."  What every consumer of snapshot.Queues
+// relies on: (1) a non-empty ParentQueue is a key of the map, (2) every listed child is a key of the
+// map, (3) child lists and parent references agree, (4) only orphans / unrooted queues and their
+// descendants are dropped, (5) the parent relation is acyclic (parent-chain loops terminate).
+// Status on the fixed tree (3fa1605: UpdateQueueHierarchy = updateQueueChildren; cleanQueueOrphans;
+// cleanQueueCycles), all for the FINAL state: (1) [parentsPresent], (3) [childrenNameParent]
+// [parentsListChildren], (5) [rooted] (every remaining queue reaches a top-level queue through
+// remaining queues: rank(k) = that number of steps strictly decreases along ParentQueue) and its
+// first-order instances [noSelfParent] [noTwoCycle], and [entriesKept] are proved. (2) and (4) are
+// proved for the state after cleanQueueOrphans (its contract); that cleanQueueCycles preserves (2)
+// needs "a rooted chain has at most len(queues) nodes" (pigeonhole over the abstract map cardinality),
+// which is out of reach for the solvers: not claimed for the final state.
+// [rooted] and [parentsPresent] are stated under old(ancOK(queues)), the definition of the spec-only
+// iterate symbol qanc (see below); the conjunct qanc(k, 0) == k in [parentsPresent] only seeds a term.
+//@ func UpdateQueueHierarchy
+//@   props C10
+//@   requires keyed(queues) && noChildren(queues)
+//@   modifies queues[*], family(queues[""].ChildQueues)
+//@   ensures [childrenNameParent] childPar(queues)
+//@   ensures [parentsListChildren] childComplete(queues)
+//@   ensures [entriesKept] forall k in queues :: queues[k] != nil && old(k in queues) && queues[k] == old(queues[k])
+//@   ensures [noSelfParent] forall k in queues :: !selfParent(queues, k)
+//@   ensures [noTwoCycle] forall k in queues :: !twoCycle(queues, k)
+//@   ensures [rooted] old(ancOK(queues)) ==> (forall k in queues :: exists n int :: rootAt(queues, k, n))
+//@   ensures [parentsPresent] old(ancOK(queues)) ==> (forall k in queues :: qanc(k, 0) == k && (queues[k].ParentQueue == "" || queues[k].ParentQueue in queues))
+//@ end
+
+// ---- parent chains (acyclicity) -----------------------------------------------------------------
+// qanc(s, n): the queue id reached from s after n parent steps. ancOK(qs) DEFINES this spec-only
+// symbol for the map qs (iterate "go to ParentQueue while inside the map, stay put outside"): it
+// holds of exactly one function in every heap, so requiring it excludes no execution (same device as
+// proportion/utils.chainOK). The third conjunct (composition) is a property of every iterate.
+//@ declare qanc(s common_info.QueueID, n int) common_info.QueueID
+//@ define ancOK(qs map[common_info.QueueID]*queue_info.QueueInfo) bool = (forall s common_info.QueueID :: qanc(s, 0) == s) && (forall s common_info.QueueID, n int :: n >= 0 && qanc(s, n) in qs ==> qanc(s, n + 1) == qs[qanc(s, n)].ParentQueue) && (forall s common_info.QueueID, m int, j int :: m >= 0 && j >= 0 ==> qanc(qanc(s, m), j) == qanc(s, m + j))
+// s reaches a top-level queue (ParentQueue == "") after exactly n parent steps, all inside the map
+//@ define rootAt(qs map[common_info.QueueID]*queue_info.QueueInfo, s common_info.QueueID, n int) bool = 0 <= n && (forall m int :: 0 <= m && m <= n ==> qanc(s, m) in qs) && (forall m int :: 0 <= m && m < n ==> qs[qanc(s, m)].ParentQueue != "") && qs[qanc(s, n)].ParentQueue == ""
+
+// the two smallest parent cycles (first-order): a queue that is its own parent / two queues that are each other's parent
+//@ define selfParent(qs map[common_info.QueueID]*queue_info.QueueInfo, k common_info.QueueID) bool = k != "" && k in qs && qs[k].ParentQueue == k
+//@ define twoCycle(qs map[common_info.QueueID]*queue_info.QueueInfo, k common_info.QueueID) bool = k != "" && k in qs && qs[k].ParentQueue != "" && qs[k].ParentQueue in qs && qs[qs[k].ParentQueue].ParentQueue == k
+
+// consequence of ancOK (every suffix of a rooted chain is a rooted chain), proved from it by cleanQueueCycles [lemmasHold]
+//@ define ancLemmas(qs map[common_info.QueueID]*queue_info.QueueInfo) bool = forall k common_info.QueueID, n int, m int :: rootAt(qs, k, n) && 0 <= m && m <= n ==> rootAt(qs, qanc(k, m), n - m)
+
+// C10 (fix 3fa1605): true iff the parent chain of queueID reaches a top-level queue within
+// len(queues) steps without leaving the map. Terminates on every map (bounded by len(queues)+1).
+//@ func queueReachesRoot
+//@   props C10
+//@   requires nonNil(queues)
+//@   pure
+//@   loop 1
+//@     invariant 0 <= steps && steps <= len(queues) + 1
+//@     invariant ancOK(queues) ==> cur(queueID) == qanc(queueID, steps)
+//@     invariant ancOK(queues) ==> (forall m int :: 0 <= m && m < steps ==> qanc(queueID, m) in queues && queues[qanc(queueID, m)].ParentQueue != "")
+//@     invariant queueID in queues && queues[queueID].ParentQueue == queueID ==> cur(queueID) == queueID
+//@     invariant queueID in queues && queues[queueID].ParentQueue in queues && queues[queues[queueID].ParentQueue].ParentQueue == queueID ==> cur(queueID) == queueID || cur(queueID) == queues[queueID].ParentQueue
+//@     decreases len(queues) + 1 - steps
+//@   ensures [selfParentUnrooted] selfParent(queues, queueID) ==> !result
+//@   ensures [twoCycleUnrooted] twoCycle(queues, queueID) ==> !result
+//@   ensures [rootedWithinBound] ancOK(queues) && result ==> (exists n int :: n <= len(queues) && rootAt(queues, queueID, n))
+//@   ensures [exact] ancOK(queues) && !result ==> (forall n int :: n <= len(queues) ==> !rootAt(queues, queueID, n))
+//@ end
+
+// the parent chain of s reaches a top-level queue within len(qs) steps, inside the map
+//@ define reach(qs map[common_info.QueueID]*queue_info.QueueInfo, s common_info.QueueID) bool = exists n int :: n <= len(qs) && rootAt(qs, s, n)
+// s is one of the first cnt elements of l
+//@ define listed(l []common_info.QueueID, cnt int, s common_info.QueueID) bool = exists i int :: 0 <= i && i < cnt && l[i] == s
+
+// C10 (fix 3fa1605): "queue parent cycles or self-parents": afterwards EVERY remaining queue reaches a
+// top-level queue through remaining queues (so the parent relation restricted to the map is acyclic and
+// rank(k) = number of steps to the root strictly decreases along ParentQueue); only queues that do
+// not reach a root within len(queues) steps are removed.
+//@ declare rch(k common_info.QueueID) bool
+//@ func cleanQueueCycles
+//@   props C10
+//@   assume forall k common_info.QueueID :: rch(k) == reach(queues, k)
+//@   note the `assume` is DEFINITIONAL: rch is a spec-only symbol naming reach(queues, .) of the entry state, so that the loop invariants stay quantifier-light; it does not occur in the ensures.
+//@   requires nonNil(queues)
+//@   modifies queues[*]
+//@   loop 1
+//@     invariant forall i int :: 0 <= i && i < len(unrooted) ==> unrooted[i] in queues
+//@     invariant forall k in visited :: (!selfParent(queues, k) && !twoCycle(queues, k)) || listed(unrooted, len(unrooted), k)
+//@     invariant ancOK(queues) ==> (forall i int :: 0 <= i && i < len(unrooted) ==> !reach(queues, unrooted[i]))
+//@     invariant ancOK(queues) ==> (forall k in visited :: rch(k) || listed(unrooted, len(unrooted), k))
+//@   loop 2
+//@     invariant 0 - 1 <= rangeindex && rangeindex < len(unrooted)
+//@     invariant forall k in queues :: old(k in queues) && queues[k] == old(queues[k])
+//@     invariant forall k common_info.QueueID :: old(k in queues) ==> (!old(selfParent(queues, k)) && !old(twoCycle(queues, k))) || listed(unrooted, len(unrooted), k)
+//@     invariant forall i int :: 0 <= i && i <= rangeindex ==> !(unrooted[i] in queues)
+//@     invariant old(ancOK(queues)) ==> (forall i int, k common_info.QueueID :: 0 <= i && i < len(unrooted) && unrooted[i] == k ==> !old(reach(queues, k)))
+//@     invariant old(ancOK(queues)) ==> (forall k common_info.QueueID :: old(k in queues) ==> rch(k) || listed(unrooted, len(unrooted), k))
+//@     invariant forall k common_info.QueueID :: old(k in queues) && !(k in queues) ==> listed(unrooted, rangeindex + 1, k)
+//@     decreases len(unrooted) - rangeindex
+//@   ensures [onlyDeletes] forall k in queues :: old(k in queues) && queues[k] == old(queues[k])
+//@   ensures [noSelfParent] forall k in queues :: !selfParent(queues, k)
+//@   ensures [noTwoCycle] forall k in queues :: !twoCycle(queues, k)
+//@   ensures [onlyRootedRemain] old(ancOK(queues)) ==> (forall k in queues :: old(reach(queues, k)))
+//@   ensures [lemmasHold] old(ancOK(queues)) ==> old(ancLemmas(queues))
+//@   ensures [rootedRemain] old(ancOK(queues)) ==> (forall k common_info.QueueID :: old(k in queues) && old(reach(queues, k)) ==> k in queues)
+//@ end
+
+// The queue map handed to UpdateQueueHierarchy: every value is a non-nil QueueInfo stored under its
+// own UID, with an empty child list (this is UpdateQueueHierarchy's precondition; the call in
+// Snapshot passes exactly this map).
+//@ func (*ClusterInfo).snapshotQueues
+//@   props C10
+//@   requires c != nil && c.dataLister != nil
+//@   note modifies *: the error path wraps the error with github.com/pkg/errors.WithStack (external, havoc); ProjectLevelFairness mode also overwrites Spec.ParentQueue of the listed (informer-cache) Queue objects
+//@   modifies *
+//@   loop 1
+//@     invariant 0 - 1 <= rangeindex && rangeindex < len(queues)
+//@     invariant result != nil && fresh(result)
+//@     invariant forall i int :: 0 <= i && i < len(queues) ==> queues[i] != nil
+//@     invariant keyed(result) && noChildren(result)
+//@   loop 2
+//@     invariant 0 - 1 <= rangeindex && rangeindex < len(queues)
+//@     invariant result != nil && fresh(result)
+//@     invariant forall i int :: 0 <= i && i < len(queues) ==> queues[i] != nil
+//@     invariant keyed(result) && noChildren(result)
+//@   ensures [establishesHierarchyPre] result1 == nil ==> keyed(result0) && noChildren(result0)
+//@ end
+
+// ---- C12: bind requests in the snapshot ---------------------------------------------------------
+// "The scheduler ... bind requests whose selected node no longer exists are deleted": every listed
+// request goes to exactly one side: selected node present in the snapshot => stored in the map
+// under the pod key; node absent and the request belongs to this scheduler's node pool => in the
+// list for deleted nodes; node absent and other node pool => dropped (not ours to delete).
+// poolMatch: the (external, assumed deterministic) label-selector match of the node-pool selector.
+//@ declare poolMatch(sel labels.Selector, ls map[string]string) bool
+
+//@ func k8s.io/apimachinery/pkg/labels.Selector.Matches
+//@   props C12
+//@   trusted
+//@   note external interface (k8s.io/apimachinery labels.Selector): assumed read-only and a deterministic function of the selector and the label set
+//@   pure
+//@   ensures result == poolMatch(recv, unbox(arg0, "labels.Set"))
+//@ end
+
+//@ define brOK(b *bindrequest_info.BindRequestInfo) bool = b != nil && b.BindRequest != nil && b.Name == b.BindRequest.Name && b.Namespace == b.BindRequest.Namespace
+//@ define brKey(r *schedulingv1alpha2.BindRequest) bindrequest_info.Key = bindrequest_info.objKey(r.Namespace, r.Spec.PodName)
+
+//@ func (*ClusterInfo).snapshotBindRequests
+//@   props C12
+//@   requires c != nil && c.dataLister != nil && c.nodePoolSelector != nil
+//@   loop 1
+//@     invariant 0 - 1 <= rangeindex && rangeindex < len(bindRequests)
+//@     invariant forall i int :: 0 <= i && i < len(bindRequests) ==> bindRequests[i] != nil
+//@     invariant result != nil && fresh(result)
+//@     invariant forall k in result :: allocated(result[k]) && brOK(result[k]) && result[k].BindRequest.Spec.SelectedNode in nodes && k == brKey(result[k].BindRequest)
+//@     invariant forall j int :: 0 <= j && j < len(requestsForDeletedNodes) ==> allocated(requestsForDeletedNodes[j]) && brOK(requestsForDeletedNodes[j]) && !(requestsForDeletedNodes[j].BindRequest.Spec.SelectedNode in nodes) && poolMatch(c.nodePoolSelector, requestsForDeletedNodes[j].BindRequest.Labels)
+//@     invariant forall i int :: 0 <= i && i <= rangeindex && bindRequests[i].Spec.SelectedNode in nodes ==> brKey(bindRequests[i]) in result
+//@     invariant forall i int :: 0 <= i && i <= rangeindex && !(bindRequests[i].Spec.SelectedNode in nodes) && poolMatch(c.nodePoolSelector, bindRequests[i].Labels) ==> (exists j int :: 0 <= j && j < len(requestsForDeletedNodes) && requestsForDeletedNodes[j].BindRequest == bindRequests[i])
+//@   ensures [liveNodeRequestsStored] result2 == nil ==> (forall i int :: 0 <= i && i < len(bindRequests) && bindRequests[i].Spec.SelectedNode in nodes ==> brKey(bindRequests[i]) in result0)
+//@   ensures [missingNodeRequestsOfPoolListed] result2 == nil ==> (forall i int :: 0 <= i && i < len(bindRequests) && !(bindRequests[i].Spec.SelectedNode in nodes) && poolMatch(c.nodePoolSelector, bindRequests[i].Labels) ==> (exists j int :: 0 <= j && j < len(result1) && result1[j].BindRequest == bindRequests[i]))
+//@   ensures [listError] result2 != nil ==> result0 == nil && len(result1) == 0
+//@   ensures [mapOnlyLiveNodes] result2 == nil ==> result0 != nil && (forall k in result0 :: brOK(result0[k]) && result0[k].BindRequest.Spec.SelectedNode in nodes && k == brKey(result0[k].BindRequest))
+//@   ensures [deletedOnlyMissingNodesOfPool] result2 == nil ==> (forall j int :: 0 <= j && j < len(result1) ==> brOK(result1[j]) && !(result1[j].BindRequest.Spec.SelectedNode in nodes) && poolMatch(c.nodePoolSelector, result1[j].BindRequest.Labels))
+//@ end
